@@ -401,3 +401,49 @@ func TestVerifListSnapshot(t *testing.T) {
 	}
 	fmt.Println("list-snapshot done")
 }
+
+// TestVerifShutdownWindow: connections are handed back while Shutdown is in the middle of closing an idle one (its
+// Close takes a moment). Whatever Shutdown does with its locks, once it has returned every connection that was
+// handed back — to the same or to another backend, accepted or refused — is closed, and the pool holds nothing.
+func TestVerifShutdownWindow(t *testing.T) {
+	p := NewWebSocketPool(8, 8, time.Hour)
+	slow := &gConn{id: 1, entered: make(chan struct{}, 1), gate: make(chan struct{})}
+	p.Put("b", slow)
+	done := make(chan struct{})
+	go func() { p.Shutdown(); close(done) }()
+	select {
+	case <-slow.entered:
+	case <-time.After(3 * time.Second):
+		t.Fatalf("VERIF-POOL shutdown-window: Shutdown never closed the idle connection")
+	}
+	extras := []*gConn{{id: 2}, {id: 3}, {id: 4}}
+	accepted := make([]bool, len(extras))
+	var wg sync.WaitGroup
+	for i, b := range []string{"b", "c", "c"} {
+		wg.Add(1)
+		go func(i int, b string) {
+			defer wg.Done()
+			accepted[i] = p.Put(b, extras[i])
+		}(i, b)
+	}
+	putsDone := make(chan struct{})
+	go func() { wg.Wait(); close(putsDone) }()
+	select {
+	case <-putsDone: // Shutdown does not hold the pool's lock while closing
+	case <-time.After(200 * time.Millisecond): // it does: the Puts wait for it
+	}
+	close(slow.gate)
+	<-done
+	<-putsDone
+	for i, c := range extras {
+		if !c.closed.Load() {
+			t.Fatalf("VERIF-POOL shutdown-window: connection %d, handed back while Shutdown was closing an idle connection (Put answered %v), is still open after Shutdown returned", c.id, accepted[i])
+		}
+	}
+	for _, b := range []string{"b", "c"} {
+		if idle, _ := p.Stats(b); idle != 0 {
+			t.Fatalf("VERIF-POOL shutdown-window: %d idle connection(s) of %s are still pooled after Shutdown returned", idle, b)
+		}
+	}
+	fmt.Println("shutdown-window done")
+}
